@@ -6,11 +6,12 @@ tier="${1:-quick}"; only="${2:-}"
 wt=/tmp/wt-c20-mut; out=/dev/shm/c20-mut-out
 git -C /repo worktree remove --force $wt 2>/dev/null
 git -C /repo worktree add --detach $wt HEAD >/dev/null 2>&1 || exit 2
+log=/dev/shm/c20-mutants.log; : > $log
 for p in /verif/mutants/C20-*$only*.patch; do
   git -C $wt checkout -q -- . ; git -C $wt apply "$p" || { echo "$(basename $p): patch does not apply"; continue; }
   rm -rf $out; t0=$(date +%s)
   VERIF_REPO=$wt VERIF_OUT=$out timeout 1800 /verif/run.sh c20 --tier $tier > $out.stdout 2>&1; rc=$?
-  echo "== $(basename $p): exit=$rc  $(( $(date +%s) - t0 ))s  $(grep -c '^VIOLATION' $out.stdout) violation keys"
-  grep '^  key=' $out.stdout | sort | sed 's/^/     /'
+  { echo "== $(basename $p): exit=$rc  $(( $(date +%s) - t0 ))s  $(grep -c '^VIOLATION' $out.stdout) violation keys"
+    grep '^  key=' $out.stdout | sort | sed 's/^/     /'; grep -h 'HARNESS' $out.stdout $out/logs/c20.stderr.log 2>/dev/null | cut -c1-300 | head -3; } | tee -a $log
 done
 git -C /repo worktree remove --force $wt; rm -rf $out $out.stdout
